@@ -313,7 +313,91 @@ def check_lexicase_random(h: Harness):
         emit_lexicase(h, pop, res, rec, script, [False, True], False, k, "beyond-population")
 
 
+SCALES17 = [("1e5*(2+k*1e-6)", lambda k: 200000.0 + k * 0.2), ("1e12+k", lambda k: 1e12 + k), ("1+k*ulp", lambda k: 1.0 + k * 2.0 ** -52),
+            ("k*1e-300", lambda k: k * 1e-300)]
+
+
+def check_scale_invariance(h: Harness):
+    """selection may depend on the ORDER of the fitness values only: the same table of ranks under
+    monotone re-scalings (large magnitudes, neighbouring floats) must select the same individuals
+    for the same draws"""
+    from geneticengine.problems import MultiObjectiveProblem
+    rng = h.rng
+    for t in range(h.n(150, 1500)):
+        n = rng.randint(2, 5)
+        ncases = rng.randint(1, 3)
+        ranks = [[rng.randint(0, 2) for _ in range(ncases)] for _ in range(n)]
+        mins = [rng.random() < 0.5 for _ in range(ncases)]
+        k = rng.randint(1, n)
+        seed = rng.randrange(10**6)
+        outs = []
+        for name, f in [("id", float)] + SCALES17:
+            problem = MultiObjectiveProblem(list(mins), lambda p: list(p[1]), aggregate_fitness=lambda comps: comps[0])
+            rep = StubRep(ncases)
+            inds = [Individual((i, [f(x) for x in row]), rep) for i, row in enumerate(ranks)]
+            try:
+                res = list(LexicaseSelection().apply(problem, SequentialEvaluator(), rep, NativeRandomSource(seed), list(inds), k, 0))
+                outs.append((name, [x.genotype[0] for x in res]))
+            except Exception as e:  # noqa: BLE001
+                outs.append((name, "error:" + type(e).__name__))
+        h.seen(f"scale17:{ranks}:{mins}:{k}:{seed}")
+        for name, o in outs[1:]:
+            if o != outs[0][1]:
+                h.fail("LexicaseSelection.apply", "depends-on-magnitude-not-order",
+                       f"lexicase on ranks {ranks} (minimize={mins}, k={k}, seed={seed}): scaled by {name} the winners are {o}, "
+                       f"with plain integers {outs[0][1]}", {"ranks": ranks, "mins": mins, "k": k, "seed": seed, "scale": name})
+                break
+        # tournament under the same scalings
+        aggs = [rng.randint(0, 3) for _ in range(n)]
+        touts = []
+        for name, f in [("id", float)] + SCALES17:
+            problem = SingleObjectiveProblem(lambda p: p[1], minimize=mins[0])
+            rep = StubRep(1)
+            inds = [Individual((i, f(a)), rep) for i, a in enumerate(aggs)]
+            res = list(TournamentSelection(2).apply(problem, SequentialEvaluator(), rep, NativeRandomSource(seed), list(inds), k, 0))
+            touts.append((name, [x.genotype[0] for x in res]))
+        for name, o in touts[1:]:
+            if o != touts[0][1]:
+                h.fail("TournamentSelection.apply", "depends-on-magnitude-not-order",
+                       f"tournament on aggregates ranks {aggs} (minimize={mins[0]}): scaled by {name} the winners are {o}, plain integers {touts[0][1]}",
+                       {"aggs": aggs, "seed": seed, "scale": name})
+                break
+    h.count("scale-invariance-cases")
+
+
+def check_second_problem(h: Harness):
+    """selection for a problem must use THAT problem's fitness, also when the individuals were
+    evaluated for another problem (with the opposite ordering) before"""
+    rng = h.rng
+    for t in range(h.n(100, 1000)):
+        n = rng.randint(2, 6)
+        vals = [rng.randint(0, 5) for _ in range(n)]
+        rep = StubRep(1)
+        inds = [Individual((i, v), rep) for i, v in enumerate(vals)]
+        p_first = SingleObjectiveProblem(lambda p: p[1], minimize=False)
+        p_second = SingleObjectiveProblem(lambda p: p[1], minimize=True)
+        ev = SequentialEvaluator()
+        ev.evaluate(p_first, inds)
+        src = Recording(NativeRandomSource(rng.randrange(10**6)))
+        ts = rng.choice([2, 3])
+        k = rng.randint(1, n)
+        res = list(TournamentSelection(ts, with_replacement=True).apply(p_second, ev, rep, src, list(inds), k, 0))
+        h.seen(f"second-problem:{vals}:{ts}:{k}")
+        # every winner must be minimal (p_second minimises) among the participants of its tournament:
+        # with replacement the participants of round j are the j-th block of ts choice draws
+        if res and len(src.choices) >= ts:
+            parts = src.choices[:ts]          # participants of the first tournament
+            win = res[0]
+            if any(p.genotype[1] < win.genotype[1] for p in parts):
+                h.fail("TournamentSelection.apply", "winner-worse-than-participant",
+                       f"minimising problem after the individuals had been evaluated for a maximising one: values {vals}, participants "
+                       f"{[p.genotype[1] for p in parts]}, winner {win.genotype[1]}", {"vals": vals, "ts": ts})
+    h.count("second-problem-cases")
+
+
 def run(h: Harness):
+    check_scale_invariance(h)
+    check_second_problem(h)
     check_lexicase_exhaustive(h)
     check_tournament_exhaustive(h)
     check_tournament_random(h)
